@@ -52,7 +52,7 @@ def collinear_case(ck, c, scale, off, cfg):
         # tolerance: 1e-6 relative; 5e-3 where the speed vanishes inside the interval (fold-back / repeated control points)
         cusp = c['ncrit'] > 0 or len(set(P)) < len(P)
         tol = (5e-3 if cusp else 1e-6) * max(L, 1e-300)
-        if abs(got - exp) > tol:
+        if not (abs(got - exp) <= tol):
             return bad('fold-back' if cusp else 'monotone', 'length(%d/%d, %d/%d) = %r, exact %r' % (a, W, b, W, got, exp), exp, got)
     return True
 
@@ -100,7 +100,7 @@ def run(ck):
             except Exception as e:      # noqa
                 got = e
             tol = (5e-3 if c['ncrit'] > 0 or len(set(P)) < 3 else 1e-6) * exp
-            if isinstance(got, Exception) or not (got == got) or abs(got) == float('inf') or got < 0 or abs(got - exp) > tol:
+            if isinstance(got, Exception) or not (got == got) or abs(got) == float('inf') or got < 0 or not (abs(got - exp) <= tol):
                 ck.disagree(key='QuadraticBezier.length/collinear-%s' % ('fold-back' if c['ncrit'] > 0 else 'monotone'), site='svgpathtools/path.py:QuadraticBezier.length',
                             what='collinear quadratic %r: length() = %r, exact %r' % (seg, got, exp), case={'P': P, 'd': str(d)}, expected=exp, observed=repr(got), driver='wide-quadratics')
                 break
@@ -120,7 +120,7 @@ def run(ck):
             for a, b in ((0j, 3 + 4j), (1 + 1j, 1 + 1j + 5e5), (2j, 2j + 1e-3)):
                 ln = sp.Line(a, b)
                 ck.case(fp=('line', a, b, cfg), nontrivial=True)
-                if abs(ln.length() - abs(b - a)) > 1e-12 * abs(b - a) or abs(ln.length(0.25, 0.75) - abs(b - a) / 2) > 1e-12 * abs(b - a):
+                if not (abs(ln.length() - abs(b - a)) <= 1e-12 * abs(b - a)) or not (abs(ln.length(0.25, 0.75) - abs(b - a) / 2) <= 1e-12 * abs(b - a)):
                     ck.disagree(key='Line.length', site='svgpathtools/path.py:Line.length', what='line %r length %r' % (ln, ln.length()), case={'a': str(a), 'b': str(b)},
                                 expected=abs(b - a), observed=ln.length(), driver='line')
             for A in ({'r': [5, 5], 'phi': 0, 'th': 2, 'dl': 7, 'c': [3, -2]}, {'r': [13, 13], 'phi': 3, 'th': -5, 'dl': -17, 'c': [0, 0]},
@@ -129,7 +129,7 @@ def run(ck):
                 Lx = A['r'][0] * abs(A['dl']) * math.radians(15.0)
                 ck.case(fp=('circle', str(A), cfg), nontrivial=True)
                 vals = [arc.length(), arc.length(0, 0.5) + arc.length(0.5, 1), 4 * arc.length(0.25, 0.5)]
-                if any(abs(v - Lx) > 1e-6 * Lx for v in vals):
+                if any(not (abs(v - Lx) <= 1e-6 * Lx) for v in vals):
                     ck.disagree(key='Arc.length/circle', site='svgpathtools/path.py:Arc.length', what='[%s] circular lattice arc %s: lengths %r, r |delta| = %r' % (cfg, A, vals, Lx),
                                 case={'arc': A, 'cfg': cfg}, expected=Lx, observed=vals, driver='arc')
             # generic lattice curves: rigorous bracket, additivity
@@ -150,7 +150,7 @@ def run(ck):
                 d0 = z[1] - z[0]
                 collinear = all(abs((w - z[0]).real * d0.imag - (w - z[0]).imag * d0.real) == 0 for w in z) if d0 != 0 else True
                 atol = (5e-3 if collinear else 1e-6) * hi       # a collinear lattice curve may fold back: the speed vanishes inside
-                if isinstance(Lg, Exception) or not (lo - 1e-9 * hi <= Lg <= hi + 1e-9 * hi) or abs(parts - Lg) > atol:
+                if isinstance(Lg, Exception) or not (lo - 1e-9 * hi <= Lg <= hi + 1e-9 * hi) or not (abs(parts - Lg) <= atol):
                     ck.disagree(key='%s.length/outside-bracket-or-not-additive' % type(seg).__name__, site='svgpathtools/path.py:length',
                                 what='[%s] %r: length %r, bracket [%r, %r], length(0,.375)+length(.375,1) = %r' % (cfg, seg, Lg, lo, hi, parts),
                                 case={'z': [str(w) for w in z], 'cfg': cfg}, expected=[lo, hi], observed=repr(Lg), driver='generic')
@@ -161,7 +161,7 @@ def run(ck):
                 p = sp.Path(*segs[:k])
                 ck.case(fp=('path', k, cfg), nontrivial=k > 1)
                 tot = sum(s.length() for s in segs[:k])
-                if abs(p.length() - tot) > 1e-9 * tot:
+                if not (abs(p.length() - tot) <= 1e-9 * tot):
                     ck.disagree(key='Path.length/not-the-sum', site='svgpathtools/path.py:Path.length', what='[%s] Path.length() = %r, sum of segments %r' % (cfg, p.length(), tot),
                                 case={'k': k, 'cfg': cfg}, expected=tot, observed=p.length(), driver='path')
     finally:
